@@ -225,7 +225,7 @@ func SelfTest(def *Def, res *chk.Result, repo string) {
 
 // parallel runs fn(0..n-1) on a small worker pool (each variant load needs a few hundred MB).
 func parallel(n int, fn func(i int)) {
-	workers := 6
+	workers := 8
 	if n < workers {
 		workers = n
 	}
